@@ -744,7 +744,12 @@ def variable_round_cases():
                 cfg['snippets'] = dict(user)
             for kind, a, b in su.alias_pairs(k, d, False):
                 if kind in ('alone', 'child'):
-                    cases.append({'kind': 'variables-round%d:%s' % (rnd, kind), 'a': a, 'b': b, 'config': cfg, 'equal': True, 'bound': None})
+                    c = {'kind': 'variables-round%d:%s' % (rnd, kind), 'a': a, 'b': b, 'config': cfg, 'equal': True, 'bound': None}
+                    if rnd:
+                        # the call sequence that precedes this case in the run (the same alias under the earlier rounds'
+                        # variables): a replay file repeats it in its fresh process before the case itself
+                        c['prelude'] = [[a, dict(cfg, variables=dict(v))] for v in VARIABLE_ROUNDS[:rnd]]
+                    cases.append(c)
     return cases
 
 
@@ -983,6 +988,8 @@ def replay(ctx, obj):
             return 1 if fails else 0
         print('replay names a broken obligation, no input: %s' % str(rp)[:300])
         return 1
+    for pa, pcfg in rp.get('prelude') or []:
+        print('earlier call of the sequence: expand(%r, %r) -> %r' % (pa, pcfg, impl_expand(pa, pcfg)))
     why, ra, depth = check_case(rp)
     print('expand(%r, %r) -> %r (depth %d)\nproperty oracle: %s' % (rp['a'], rp['config'], ra, depth, why or 'holds'))
     return 1 if why else 0
